@@ -13,6 +13,24 @@ CHECKS = {
          "DESIGN.md §3 C17"),
 }
 
+CHECKS.update({
+ "C01": ("exploration",
+         "bounded-exhaustive enumeration of rule sets x request verbs x probe paths on the real Mux against an independent template matcher (liberal reading)",
+         "Every rule set over the template alphabet (singles; pairs over the reduced alphabet; annotation / additional-binding / service-config sources) is registered on the real Mux and probed with every instantiation of every template plus near-miss variants (one segment more/less, verb suffixes, ':' in every position). A dispatch is sound iff some rule of the reached method covers verb+path under the liberal reference matcher and the received message equals exactly the captured text (proto.Equal).",
+         "Exhaustive within the alphabets (literals {a,bb,v1}, fills {x,a,7}); percent-encoded paths and values outside the alphabets are not explored. Reference matcher ref/template is trusted.",
+         "DESIGN.md §3 C01"),
+ "C02": ("exploration",
+         "bounded-exhaustive enumeration of rule sets x all registration-order permutations x every template instantiation on the real Mux; differential across orders plus reference precedence rule",
+         "Every instantiation of every template of every rule set (singles, pairs incl. same-method pairs, triples) must be dispatched to a method owning a matching rule; a rule that is literal where the winner's rule is a pure wildcard must win; the (status, method, message) triple must be identical across every permutation of method order, service order and service-config order; 1..31-segment paths must route through '**'.",
+         "Exhaustive within the alphabets; the grey zone listed in DESIGN.md (zero-segment **, ':' outside the verb position, non-convertible captures, literal vs patterned variable, same-method bindings covering identical paths) is excluded.",
+         "DESIGN.md §3 C02"),
+ "C16": ("exploration",
+         "bounded-exhaustive enumeration of templates, all single-character edits, selector and conflict matrices on the real registration path against the reference parser",
+         "Every generated template and every single-character edit of it is classified by the independent grammar parser (accept / reject / grey) and registered on an empty and on a non-empty mux: accept<=>well-formed+resolvable, rejections are errors (no panic) that leave the snapshot fingerprint and all probe answers unchanged, accepted templates route every instantiation. Body/response_body selector matrix, nested additional bindings and binding conflicts likewise.",
+         "Grey zone (either outcome accepted) documented in DESIGN.md; fingerprint hook VerifFingerprint is trusted to reflect the routing snapshot.",
+         "DESIGN.md §3 C16"),
+})
+
 NOT_YET = {}
 
 def main():
